@@ -18,7 +18,7 @@ def cases(tier):
 def run(tier, seed):
     shutil.rmtree(os.path.join(BUILD, 'C14'), ignore_errors=True)
     return execute('C14', tier, seed, cases(tier), COMMON_ASSUME + [
-        'fixture configured with PayloadT<P> (P = uint32_t; struct payloads - an over-aligned 32-byte and a 5-byte struct were tried: the solver's counterexamples for them did not reproduce natively, i.e. the translation of the struct copies is not validated, so they are NOT part of the claim) and transition history',
+        'fixture configured with PayloadT<P> (P = uint32_t; struct payloads - an over-aligned 32-byte and a 5-byte struct were tried: the counterexamples found for them did not reproduce natively, i.e. the translation of the struct copies is not validated, so they are NOT part of the claim) and transition history',
         'two consecutive steps reusing the same history slots (with/without payload in either order); one or two queued external requests (kind change/restart/resume/select, any non-root destination), each with or without a payload; payload values are independent symbolic 32-bit values; guards approve, callbacks issue nothing',
         'oracle: inside every guard pendingTransitions()[i] and inside every enter() currentTransitions()[i] expose destination, kind and exactly the i-th request\'s payload (or none); afterwards previousTransitions()[i] and lastTransitionTo(s) expose the same - never another request\'s value',
         'plan-task payloads are covered by C10 (copy_plans: payloads of tasks and of the requests the executor issues) and C15 (payload vs void configuration)'])
